@@ -148,6 +148,11 @@ def run(ctx):
                     "C02_logsmoothmax_agrees_with_smoothmax", "C02_vnorm", "C02_real64_value_path_binary", "C02_convert_scalar"]
             thms = [t for t in thms if t in keep]
         ctx.cov["print_assumptions"] = vlib.print_assumptions("C02", [("C02.Props", thms)], ctx.dir)
+    # optional stretch target: agreement with the value table of the C01 model (another builder's file; never the decision)
+    if os.path.exists(os.path.join(vlib.COQ, "C01/Model.v")):
+        ok2, _ = vlib.coq_make(["C02/AgreeC01.vo"])
+        ctx.notes.append("optional C02/AgreeC01.vo (C02 op table = C01 value table m_v0/d_v0): %s" % (
+            "built" if ok2.get("C02/AgreeC01.vo") else "NOT built (C01 model changed or missing); not part of the decision"))
     binary, blog = vlib.build_harness("c02")
     if binary is None:
         ctx.violation({"obligation": "build of harness/c02 against the library", "log": blog[-3000:]}, False,
